@@ -7,7 +7,7 @@
    what the operator changed):
 
      Deposit, Withdraw, Swap        Market.tla      (M!Deposit, M!Withdraw, M!Swap, M!PoolValue)
-     Increase, Decrease             Position.tla    (P!IncreaseNA, P!DecreaseNA: the non-atomic forms)
+     Increase, Decrease             Position.tla    (P!Increase, P!DecreaseWith; results carry the partial state)
      UpdateFunding, UpdateBorrowing MarketHist.tla  (H!UpdateFunding, H!NextCumulativeBorrowingFactor)
      DistributeImpact               Distribution.tla (D!Distribute, D!Pending)
      Tick                           the explicit clock of the deterministic market
@@ -77,7 +77,7 @@ PassedDist(m) == Passed(m, m.ck_d)
 (* the uniform report of an action: only the fields of the executed operation are meaningful *)
 NoRep == [minted |-> 0, wd |-> Z2, swOut |-> 0, impact |-> 0, impactAmt |-> 0,
           fpl |-> 0, frl |-> 0, fps |-> 0, frs |-> 0, pos |-> P!ZeroRep, d |-> 0, next |-> 0, dur |-> 0,
-          sw1 |-> "", sw2 |-> ""]
+          sw1 |-> "", sw2 |-> "", ncb |-> 0]
 Res(ok, s, rep) == [ok |-> ok, s |-> s, rep |-> rep]
 
 (* what the programs do with every action: run it on a revertible market, commit only on Ok *)
@@ -106,7 +106,7 @@ MView(s, c, px) ==
       nl == NextBf(s, c, px, TRUE)
       ns == NextBf(s, c, px, FALSE)
       pd == PendingImpactPool(s, c)
-      poison == MaxU + 1
+      poison == MaxU              \* no total reaches it in the small world
   IN [liq |-> R2(m.liq), imp |-> R2(m.simp), fee |-> R2(m.fee), supply |-> m.supply,
       oi  |-> [long |-> H!SideOI(m, TRUE),  short |-> H!SideOI(m, FALSE)],
       oit |-> [long |-> H!SideOIT(m, TRUE), short |-> H!SideOIT(m, FALSE)],
@@ -256,12 +256,23 @@ Decrease(s, c, px, k, size, acc, wd, fl, ty) ==
       r == P!DecreaseWith(PPos(p), PView(s, c), PPx(px), size, IF acc = 0 THEN -1 ELSE acc, wd, fl,
                           LAMBDA st, ctx : SwapProfit(st, ctx, c, px, ty))
       b == PBack(r.pm, k, r.pp)
-      rep == [NoRep EXCEPT !.pos = r.rep, !.sw1 = r.pm.sw1]
+      rep == [NoRep EXCEPT !.pos = r.rep, !.sw1 = r.pm.sw1, !.ncb = r.ncb]
   IN IF r.ok /\ b.ok /\ ty = 2 /\ p.long # p.cl /\ r.rep.out # 0
      THEN LET w == Swap(b.s, c, px, p.cl, r.rep.out)
           IN IF w.ok THEN Res(TRUE, w.s, [rep EXCEPT !.pos.out = 0, !.pos.sec = @ + w.rep.swOut, !.sw2 = "ok"])
              ELSE Res(TRUE, b.s, [rep EXCEPT !.sw2 = "err"])
      ELSE Res(r.ok /\ b.ok, b.s, rep)
+
+-----------------------------------------------------------------------------
+(* What the programs run before every action (RevertibleMarket::update_fees_state, also an instruction
+   of its own): distribute the position impact pool, update the borrowing state, update the funding
+   state -- in this order, each on the result of the previous one; the first Err is the Err of the whole. *)
+Then(r, Next(_)) == IF r.ok THEN Next(r.s) ELSE r
+UpdateFees(s, c, px) ==
+  Then(DistributeImpact(s, c), LAMBDA s1 : Then(UpdateBorrowing(s1, c, px), LAMBDA s2 : UpdateFunding(s2, c, px)))
+(* the state the programs execute deposits, withdrawals and orders in (a swap step: borrowing only) *)
+FeesUpdated(s)      == s.m.ck_d = s.m.now /\ s.m.ck_b = s.m.now /\ s.m.ck_f = s.m.now
+BorrowingUpdated(s) == s.m.ck_b = s.m.now
 
 -----------------------------------------------------------------------------
 (* One operation record (the driver's script format: op + arg) applied to a state *)
@@ -275,6 +286,7 @@ Apply(s, c, px, op, a) ==
     [] op = "update_funding"   -> UpdateFunding(s, c, px)
     [] op = "update_borrowing" -> UpdateBorrowing(s, c, px)
     [] op = "distribute"       -> DistributeImpact(s, c)
+    [] op = "update_fees"      -> UpdateFees(s, c, px)
     [] op = "tick"             -> Tick(s, a.dt)
     [] OTHER                   -> Res(TRUE, s, NoRep)          \* init / probes: no effect
 
